@@ -85,6 +85,9 @@ func (c *Float) adaptiveEncoding(in []byte, out []byte) ([]byte, error) {
 		}
 
 		out, err = GorillaEncoding(in, out)
+		if err != nil {
+			return
+		}
 		out = append(out[:1], out...)
 		out[0] = floatCompressedGorilla << 4
 	}()
@@ -221,7 +224,7 @@ func GenerateContext(values []float64) *Context {
 			distinctCount++
 		}
 
-		if !ctx.extremeDataValues && math.IsNaN(values[i]) {
+		if !ctx.extremeDataValues && (math.IsNaN(values[i]) || math.IsInf(values[i], 0)) {
 			ctx.extremeDataValues = true
 		}
 	}
